@@ -130,7 +130,7 @@ def observe(spec, call, d: dict):
     except Exception as e:  # anything else is never expected here
         return ("exc", f"{type(e).__name__}: {e}")
     vals = []
-    byval = {v: k for k, v in d.items()}
+    byval = {v: k for k, v in d.items() if type(v) is int}
     for f in spec["fields"]:
         try:
             v = getattr(obj, f["name"])
@@ -154,7 +154,23 @@ def entries(spec, mod):
     if spec["mixin"]:
         out.append(("K.from_dict", mod.K.from_dict))
     out.append(("BasicDecoder(K).decode", BasicDecoder(mod.K).decode))
+    if tag_dispatch_ok(spec):
+        # through the class-level discriminator of the parent: Base dispatches on d[field] == K.<field>
+        if spec["mixin"]:
+            out.append(("Base.from_dict", mod.Base.from_dict))
+        out.append(("BasicDecoder(Base).decode", BasicDecoder(mod.Base).decode))
     return out
+
+
+def tag_dispatch_ok(spec) -> bool:
+    """The parent's discriminator field is a class attribute of K (declared by class_source) and no field can
+    be read from that key (the tag value is a string, not one of the distinct ints)."""
+    if spec["discr"] is None or spec["discr"][0] != "field":
+        return False
+    fld = spec["discr"][1]
+    if not (fld.isidentifier() and not keyword.iskeyword(fld)) or fld in [f["name"] for f in spec["fields"]]:
+        return False
+    return all(fld not in o_candidates(spec, f) and fld != (o_alias(spec, f) or "") for f in spec["fields"])
 
 
 # ---------------------------------------------------------------------------
@@ -207,11 +223,8 @@ def o_keymodel(spec, d: dict):
 
 
 def finding_kind(spec, d, obs, exp):
-    """Precise predicates of the two listed findings; None = not attributable to a listed finding."""
-    # (1) a class without init fields emits no extra-key check at all
-    if not spec["fields"] and spec["forbid"] and exp[0] == "extra" and obs == ("inst", []):
-        return "fieldless-forbid-extra"
-    # (2) an empty-string alias is treated as "no alias" by `alias or fname`, but as an alias by `alias is not None`
+    """Precise predicate of the listed finding; None = not attributable to a listed finding."""
+    # an empty-string alias is treated as "no alias" by `alias or fname`, but as an alias by `alias is not None`
     emp = [f for f in spec["fields"] if o_alias(spec, f) == ""]
     if emp:
         # the difference must disappear when the empty aliases are read the way the code reads them
@@ -239,7 +252,7 @@ def o_keymodel_empty_alias_as_code(spec, d):
     if spec["discr"] is not None and spec["discr"][0] == "field":
         acc.add(spec["discr"][1])
     extra = [k for k in d if k not in acc]
-    if spec["forbid"] and extra and spec["fields"]:
+    if spec["forbid"] and extra:
         return ("extra", extra)
     vals = []
     for f in spec["fields"]:
@@ -257,8 +270,6 @@ def o_keymodel_empty_alias_as_code(spec, d):
 def in_domain(spec) -> bool:
     """Domain of the theorem C09_keys (mirrors KeyProofs.in_domain; cross-checked inside Coq per case)."""
     if any(o_alias(spec, f) == "" for f in spec["fields"]):
-        return False
-    if not spec["fields"] and spec["forbid"]:
         return False
     return True
 
@@ -460,12 +471,12 @@ def coq_check(name, model, items, ok_fun, ctx, shard=500):
 # ---------------------------------------------------------------------------
 
 THEOREMS = ["K4_precedence", "K4_key_plan", "K4_allowed_keys", "C09_impl_is_code", "C09_keys_partial",
-            "C09_keys_refuted_empty_alias", "C09_keys_refuted_fieldless", "C09_field_key", "C09_outcome",
+            "C09_keys_refuted_empty_alias", "C09_field_key", "C09_outcome",
             "C09_alias_wins", "C09_fallback", "C09_accepted_covers_reads", "C09_reads_allowed_partial",
             "C09_reads_allowed_refuted", "C09_extra_members", "C09_extra_exact", "C09_ignored",
             "C09_forbidden_reported"]
 
-KNOWN_KINDS = ("fieldless-forbid-extra", "empty-alias")
+KNOWN_KINDS = ("empty-alias",)
 
 
 def jsonable_key(k):
@@ -498,15 +509,15 @@ def run(ctx: vlib.Ctx):
         "(expressions are translated; statement shapes are pattern-checked, fail closed)",
         "coq/theories/PyK_alias.v: kernel primitives (for-loop as fold, isinstance by class name, sets as lists)",
         "KeyImpl.v hand-written part (order extra-key check -> fields in order; dict.get; MISSING fall-through; MissingField "
-        "for a field without default; nothing emitted for a class without init fields): compared with the real from_dict "
+        "for a field without default): compared with the real from_dict "
         "on every run",
         "encoding of Python objects as kernel values (Alias instance = namespace with class name and .name; "
         "Annotated metadata = tuple; Config.aliases / field metadata = dict) and `{x!r}` / `'{fname}'` splices denoting the "
         "string x (C16)",
     ]
     ctx.assumptions += [
-        "C09_keys: class has an init field or forbid_extra_keys is off; no field's resolved alias is the empty string "
-        "(both excluded cases are listed findings, refuted in Coq)",
+        "C09_keys_partial: no field's resolved alias is the empty string (listed finding C09/empty-alias, refuted in Coq); "
+        "the discriminator field name is not the empty string (never generated)",
         "alias values are strings (Alias(None) / aliases={..: None} are outside the property's quantifier)",
         "input keys are hashable scalars (str / None / int); values are irrelevant to key resolution (distinct ints used)",
     ]
@@ -526,7 +537,7 @@ def run(ctx: vlib.Ctx):
     k4_ok = bool(ctx.kernel_report.get("K4", {}).get("ok"))
     if not ctx.quick() and br.ok:
         # second opinion of the independent checker on the compiled library of the property file
-        rc, out, secs = vlib.run(["timeout", "600", "coqchk", "-silent", "-o"] + vlib.COQ_FLAGS[:6] + ["VerifProps.C09_keys"],
+        rc, out, secs = vlib.run(["timeout", "600", "coqchk", "-silent", "-o"] + vlib.COQ_FLAGS[:9] + ["VerifProps.C09_keys"],
                                  cwd=vlib.COQ, timeout=640)
         good = rc == 0 and "* Axioms: <none>" in out
         ctx.obligation("coqchk VerifProps.C09_keys (axioms: none)", good, out[-600:])
@@ -569,13 +580,30 @@ def run(ctx: vlib.Ctx):
                                     ("c", f["cfg"] is not None)) if on) or "-" for f in spec["fields"]) or "(no fields)")
         ctx.hist("options", f"allow={int(spec['allow'])} forbid={int(spec['forbid'])} "
                             f"discr={'-' if spec['discr'] is None else spec['discr'][0]} {'mixin' if spec['mixin'] else 'plain'}")
-        ctx.hist("domain", "in" if dom else "out(listed findings)")
+        ctx.hist("domain", "in" if dom else "out(listed finding empty-alias)")
         coq_defs.append(f"Definition c{ci} : cls := {c_spec(spec)}.")
         for ks in subsets(keys, rng, sub_max):
             d = make_dict(ks, keys, rng)
             exp = o_keymodel(spec, d)
             obs_all = []
             for ename, call in ents:
+                via_base = "Base" in ename
+                if via_base:
+                    if spec["discr"][1] not in d:
+                        continue                      # MissingDiscriminatorError: not a key-resolution case
+                    dd = dict(d)
+                    dd[spec["discr"][1]] = TAG
+                    obs = observe(spec, call, dd)
+                    # the tag key is accepted and never read: same outcome as K's own entry point on d
+                    ctx.count((ci, tuple(map(repr, ks)), ename))
+                    ctx.hist("outcome", obs[0] + " (via Base)")
+                    if obs != exp:
+                        kind = finding_kind(spec, d, obs, exp)
+                        n_mismatch_oracle += 1
+                        ctx.fail(f"{ename}({dd!r}) -> {obs!r}, KEYMODEL says {exp!r}",
+                                 replay_of(spec, src, ename, dd, obs, exp),
+                                 {"kind": kind or "key-resolution", "observed": obs[0], "expected": exp[0]})
+                    continue
                 obs = observe(spec, call, d)
                 obs_all.append(obs)
                 ctx.count((ci, tuple(map(repr, ks)), ename))
